@@ -32,6 +32,36 @@ ALLOWED = (ValueError, nima.NixSyntaxError)
 _ALPHABET = ["{", "}", "(", ")", "[", "]", ";", "=", ",", ":", "@", "?", '"', "''", "${", " in ", "let ", " then ", " else ", "with ", "assert ", "inherit ", "rec ", "if ", ".", "...", "#", "/*", "*/", "\\", "'", "$", " ", "\n", "\t", "a", "b", "x", "1", "0.5", "./p", "<n>", "é", "==", "!", "-", "+", "++", "//", "->", " or ", "&&", "||", "true", "null", "http://x.y", "~/h"]
 
 
+_WS = [" ", " ", "\n", "\n", "\n  ", "\n\n", "\n    ", "  ", "\t", "\n\n  ", "\r\n", " # c\n", " /* c */ ", "\n# c\n"]
+_TAILS = ["\n", "\r\n", "\r", "\f", "\v", " ", "\t", "\n\n", "# end\n"]
+
+
+def relayout(r: random.Random, base: str, tree):
+    """Every whitespace gap of a valid program replaced by random layout (line breaks before/after any token, blank lines,
+    CRLF, comments), plus a random tail after the last token.  Returns None when the result is not the same token
+    sequence any more (gaps inside string content are not told apart up front)."""
+    toks = cst.tokens(tree)
+    src = tree.src
+    out = []
+    pos = 0
+    p_change = r.choice([0.15, 0.4, 0.8])
+    for a, b in zip(toks, toks[1:]):
+        gap = src[a.end : b.start]
+        out.append(src[pos : a.end])
+        pos = b.start
+        if gap and not gap.strip() and r.random() < p_change:
+            out.append(r.choice(_WS).encode())
+        else:
+            out.append(gap)
+    out.append(src[pos : toks[-1].end] if toks else src)
+    tail = "".join(r.choice(_TAILS) for _ in range(r.randint(0, 4)))
+    text = b"".join(out).decode() + tail
+    t2 = cst.parse(text)
+    if t2.root.has_error or [t.key() for t in cst.tokens(t2)] != [t.key() for t in toks]:
+        return None
+    return text
+
+
 def run_once(text):
     """-> (status, sig)  status in ok|refused|crash|timeout"""
     nima.reset_state()
@@ -292,7 +322,7 @@ def replay(case):
         return []
     status, sig = run_once(text)
     if status == "crash":
-        return [(f"crash:{sig}", {})]
+        return [(f"crash:{sig}|replay" + ("|leading-ws" if text[:1].isspace() else ""), {})]
     return []
 
 
@@ -351,7 +381,7 @@ def atheris_campaign(sh, runs, max_time):
             status, sig = run_once(text)
             case = {"kind": "text", "text": text}
             if status == "crash":
-                sh.fail(f"crash:{sig}|atheris", case, {"sig": sig})
+                sh.fail(f"crash:{sig}|atheris" + ("|leading-ws" if text[:1].isspace() else ""), case, {"sig": sig})
             elif cst.parse(text).root.has_error:
                 try:
                     if nima.rt(text) != text:
@@ -400,7 +430,7 @@ def run_shard(sh):
 
     @seed(sh.hseed)
     @settings(max_examples=examples, database=None, deadline=None, suppress_health_check=list(HealthCheck), phases=[Phase.generate])
-    @given(st.integers(0, 2**48), st.sampled_from(["valid", "valid", "damage", "text"]), text_strategy)
+    @given(st.integers(0, 2**48), st.sampled_from(["valid", "valid", "damage", "text", "layout", "layout"]), text_strategy)
     def prop(n, mode, raw):
         if sh.over_budget():
             sh.skipped_budget += 1
@@ -418,12 +448,17 @@ def run_shard(sh):
                 return
             if mode == "valid":
                 text, perts, _g, _t, _d = T.inject(r, base, injector, tree=bt)
+            elif mode == "layout":
+                text = relayout(r, base, bt)
+                if text is None:
+                    sh.notes["relayout-changed-tokens"] += 1
+                    return
             else:
                 text, _op = D.damage(r, base)
         if not cst.env_ok(text):
             sh.notes["env-size-limit"] += 1
             return
-        if skip_lead and mode != "valid" and text[:1].isspace():
+        if skip_lead and mode not in ("valid", "layout") and text[:1].isspace():
             if cst.parse(text).root.has_error:
                 pass  # erroneous sources are passed through raw: unaffected by F01
             else:
@@ -432,14 +467,14 @@ def run_shard(sh):
         status, sig = run_once(text)
         erroneous = cst.parse(text).root.has_error
         case = {"kind": "text", "text": text}
-        sh.record(case, erroneous or bool(perts), [f"mode:{mode}", f"status:{status}", f"erroneous:{erroneous}"], refused=(status == "refused"))
+        sh.record(case, erroneous or bool(perts) or mode == "layout", [f"mode:{mode}", f"status:{status}", f"erroneous:{erroneous}"], refused=(status == "refused"))
         if status == "refused":
             sh.notes["refused:" + sig] += 1
         if status == "timeout":
             sh.notes["timeout-inconclusive"] += 1
         if status == "crash":
             feat = "+".join(sorted({p.feature() for p in perts})) if perts and len(perts) <= 2 else ("multi" if perts else mode)
-            sh.fail(f"crash:{sig}|{feat}", case, {"sig": sig})
+            sh.fail(f"crash:{sig}|{feat}" + ("|leading-ws" if text[:1].isspace() else ""), case, {"sig": sig})
 
     prop()
     sh.excluded += injector.excluded
